@@ -55,13 +55,16 @@ def deliveredOf (o : Out) : List Bytes :=
   | none => []
 
 /-- invariant of `MessageBuffer` (repaired): `pendingSize` *is* the encoded size of the
-pending batch, it never exceeds `maxSize`, and nothing is pending once closed -/
+pending batch, it never exceeds `maxSize`, nothing is pending once closed, and whenever
+something is pending the flush timer is armed -/
 structure Inv (c : Cfg) (s : State) : Prop where
   size_eq : s.pendingSize = (encodeBatch s.pending).length
   size_le : s.pendingSize ≤ c.maxSize
   closed_empty : s.closed = true → s.pending = []
+  armed : s.pending ≠ [] → s.timerArmed = true
 
-theorem inv_init (c : Cfg) : Inv c init := ⟨rfl, Nat.zero_le _, fun _ => rfl⟩
+theorem inv_init (c : Cfg) : Inv c init :=
+  ⟨rfl, Nat.zero_le _, fun _ => rfl, fun h => absurd rfl h⟩
 
 /-- everything one atomic step guarantees -/
 structure StepSpec (c : Cfg) (s : State) (op : Op) (s' : State) (o : Out) : Prop where
@@ -73,21 +76,32 @@ structure StepSpec (c : Cfg) (s : State) (op : Op) (s' : State) (o : Out) : Prop
   fifo : receivedOf o ++ s'.queue = s.queue ++ deliveredOf o
   closed_mono : s.closed = true → s'.closed = true
 
-theorem clearPending_spec (c : Cfg) (s : State) (h : Inv c s) :
+theorem clearPending_spec (c : Cfg) (s : State)
+    (hsz : s.pendingSize = (encodeBatch s.pending).length) (hle : s.pendingSize ≤ c.maxSize) :
     let r := clearPending c s
     r.1.pending = [] ∧ r.1.pendingSize = 0 ∧ r.1.closed = s.closed ∧
     r.2.msgs = s.pending ∧ r.2.bytes = encodeBatch s.pending ∧
     r.2.bytes.length ≤ c.maxSize ∧ (r.2.delivered = false → c.cap ≤ s.queue.length) ∧
-    r.1.queue = s.queue ++ (if r.2.delivered then [r.2.bytes] else []) := by
-  have hl : (encodeBatch s.pending).length ≤ c.maxSize := by rw [← h.size_eq]; exact h.size_le
+    r.1.queue = s.queue ++ (if r.2.delivered then [r.2.bytes] else []) ∧
+    r.1.timerArmed = s.timerArmed := by
+  have hl : (encodeBatch s.pending).length ≤ c.maxSize := by rw [← hsz]; exact hle
   unfold clearPending
   by_cases hq : s.queue.length < c.cap
   · simp [hq, hl]
   · simp [hq, hl]; omega
 
+theorem armIfFirst_fields (s : State) :
+    (armIfFirst s).pending = s.pending ∧ (armIfFirst s).pendingSize = s.pendingSize ∧
+    (armIfFirst s).queue = s.queue ∧ (armIfFirst s).closed = s.closed ∧
+    (s.pending.length = 1 → (armIfFirst s).timerArmed = true) ∧
+    (s.timerArmed = true → (armIfFirst s).timerArmed = true) := by
+  unfold armIfFirst
+  by_cases h : s.pending.length = 1
+  · simp [h]
+  · simp [h]
+
 theorem send_spec (c : Cfg) (s : State) (m : Bytes) (h : Inv c s) :
     StepSpec c s (.send m) (send c s m).1 (send c s m).2 := by
-  obtain ⟨c1, c2, c3, c4, c5, c6, c7, c8⟩ := clearPending_spec c s h
   unfold send
   by_cases hc : s.closed = true
   · simp only [hc, if_true]
@@ -99,68 +113,90 @@ theorem send_spec (c : Cfg) (s : State) (m : Bytes) (h : Inv c s) :
     · simp only [hl, if_false]
       by_cases hf : s.pendingSize + entrySize m > c.maxSize
       · simp only [hf, if_true]
-        refine ⟨⟨?_, ?_, ?_⟩, ?_, ?_, ?_, ?_⟩
-        · show (clearPending c s).1.pendingSize + entrySize m = (encodeBatch ((clearPending c s).1.pending ++ [m])).length
-          rw [c1, c2, List.nil_append, encodeBatch_length_cons]; simp [encodeBatch]
-        · simp only [c2]; omega
-        · intro h'; simp only [c3] at h'; exact absurd h' hc
+        obtain ⟨c1, c2, c3, c4, c5, c6, c7, c8, _⟩ :=
+          clearPending_spec c { s with timerArmed := false } h.size_eq h.size_le
+        generalize hr : clearPending c { s with timerArmed := false } = r at c1 c2 c3 c4 c5 c6 c7 c8
+        obtain ⟨a1, a2, a3, a4, a5, _⟩ := armIfFirst_fields
+          { r.1 with pendingSize := r.1.pendingSize + entrySize m, pending := r.1.pending ++ [m] }
+        simp only at a1 a2 a3 a4 a5 c3 c4 c5 c7 c8
+        refine ⟨⟨?_, ?_, ?_, ?_⟩, ?_, ?_, ?_, ?_⟩
+        · rw [a1, a2, c1, c2, List.nil_append, encodeBatch_length_cons]; simp [encodeBatch]
+        · rw [a2, c2]; omega
+        · intro h'; rw [a4, c3] at h'; exact absurd h' hc
+        · intro _; exact a5 (by rw [c1]; rfl)
         · intro f hf'
           simp only [Option.some.injEq] at hf'
           subst hf'
           exact ⟨c4, by rw [c5, c4], c6, c7⟩
-        · simp [flushMsgs, acceptedOf, c4, c1]
-        · simp only [receivedOf, deliveredOf, List.nil_append]
+        · simp only [flushMsgs, acceptedOf]; rw [a1, c1, c4]; simp
+        · simp only [receivedOf, deliveredOf, List.nil_append]; rw [a3]
           exact c8
         · intro h'; exact absurd h' hc
       · simp only [hf, if_false]
-        refine ⟨⟨?_, ?_, ?_⟩, ?_, ?_, ?_, ?_⟩
-        · show s.pendingSize + entrySize m = (encodeBatch (s.pending ++ [m])).length
-          rw [encodeBatch_length_append_single, h.size_eq]
-        · show s.pendingSize + entrySize m ≤ c.maxSize
-          omega
-        · intro h'; cases h'
+        obtain ⟨a1, a2, a3, a4, a5, a6⟩ := armIfFirst_fields
+          { s with pendingSize := s.pendingSize + entrySize m, pending := s.pending ++ [m] }
+        simp only at a1 a2 a3 a4 a5 a6
+        refine ⟨⟨?_, ?_, ?_, ?_⟩, ?_, ?_, ?_, ?_⟩
+        · rw [a1, a2, encodeBatch_length_append_single, h.size_eq]
+        · rw [a2]; omega
+        · intro h'; rw [a4] at h'; exact absurd h' hc
+        · intro _
+          by_cases hp : s.pending = []
+          · exact a5 (by simp [hp])
+          · exact a6 (h.armed hp)
         · simp
-        · simp [flushMsgs, acceptedOf]
-        · simp [receivedOf, deliveredOf]
+        · simp only [flushMsgs, acceptedOf]; rw [a1]; simp
+        · simp only [receivedOf, deliveredOf]; rw [a3]; simp
         · intro h'; exact absurd h' hc
 
 theorem fire_spec (c : Cfg) (s : State) (h : Inv c s) :
     StepSpec c s .fire (fire c s).1 (fire c s).2 := by
-  obtain ⟨c1, c2, c3, c4, c5, c6, c7, c8⟩ := clearPending_spec c s h
   unfold fire
-  by_cases hc : s.closed = true
-  · simp only [hc, if_true]
-    exact ⟨h, by simp, by simp [flushMsgs, acceptedOf], by simp [receivedOf, deliveredOf], fun _ => hc⟩
-  · simp only [hc, Bool.false_eq_true, if_false]
-    by_cases hp : s.pending.length = 0
-    · simp only [hp, if_true]
-      exact ⟨h, by simp, by simp [flushMsgs, acceptedOf], by simp [receivedOf, deliveredOf], fun h' => absurd h' hc⟩
-    · simp only [hp, if_false]
-      refine ⟨⟨?_, ?_, ?_⟩, ?_, ?_, ?_, ?_⟩
-      · rw [c1, c2]; rfl
-      · rw [c2]; exact Nat.zero_le _
-      · intro _; exact c1
-      · intro f hf'
-        simp only [Option.some.injEq] at hf'
-        subst hf'
-        exact ⟨c4, by rw [c5, c4], c6, c7⟩
-      · simp [flushMsgs, acceptedOf, c4, c1]
-      · simp only [receivedOf, deliveredOf, List.nil_append]
-        exact c8
-      · intro h'; exact absurd h' hc
+  by_cases ha : s.timerArmed = true
+  · simp only [ha, Bool.not_true, Bool.false_eq_true, if_false]
+    by_cases hc : s.closed = true
+    · simp only [hc, if_true]
+      exact ⟨⟨h.size_eq, h.size_le, h.closed_empty, fun hp => absurd (h.closed_empty hc) hp⟩,
+        by simp, by simp [flushMsgs, acceptedOf], by simp [receivedOf, deliveredOf], fun _ => hc⟩
+    · simp only [hc, Bool.false_eq_true, if_false]
+      by_cases hp : s.pending.length = 0
+      · simp only [hp, if_true]
+        exact ⟨⟨h.size_eq, h.size_le, h.closed_empty,
+            fun hp' => absurd (List.eq_nil_of_length_eq_zero hp) hp'⟩,
+          by simp, by simp [flushMsgs, acceptedOf], by simp [receivedOf, deliveredOf],
+          fun h' => absurd h' hc⟩
+      · simp only [hp, if_false]
+        obtain ⟨c1, c2, c3, c4, c5, c6, c7, c8, _⟩ :=
+          clearPending_spec c { s with timerArmed := false } h.size_eq h.size_le
+        refine ⟨⟨?_, ?_, ?_, ?_⟩, ?_, ?_, ?_, ?_⟩
+        · rw [c1, c2]; rfl
+        · rw [c2]; exact Nat.zero_le _
+        · intro _; exact c1
+        · intro hp'; exact absurd c1 hp'
+        · intro f hf'
+          simp only [Option.some.injEq] at hf'
+          subst hf'
+          exact ⟨c4, by rw [c5, c4], c6, c7⟩
+        · simp only [flushMsgs, acceptedOf]; rw [c1, c4]; simp
+        · simp only [receivedOf, deliveredOf, List.nil_append]
+          exact c8
+        · intro h'; exact absurd h' hc
+  · simp only [ha, Bool.not_false, if_true]
+    exact ⟨h, by simp, by simp [flushMsgs, acceptedOf], by simp [receivedOf, deliveredOf], fun h' => h'⟩
 
 theorem close_spec (c : Cfg) (s : State) (h : Inv c s) :
     StepSpec c s .close (close c s).1 (close c s).2 := by
-  obtain ⟨c1, c2, c3, c4, c5, c6, c7, c8⟩ := clearPending_spec c s h
+  obtain ⟨c1, c2, c3, c4, c5, c6, c7, c8, _⟩ := clearPending_spec c s h.size_eq h.size_le
   unfold close
   by_cases hc : s.closed = true
   · simp only [hc, if_true]
     exact ⟨h, by simp, by simp [flushMsgs, acceptedOf], by simp [receivedOf, deliveredOf], fun _ => hc⟩
   · simp only [hc, Bool.false_eq_true, if_false]
-    refine ⟨⟨?_, ?_, ?_⟩, ?_, ?_, ?_, ?_⟩
+    refine ⟨⟨?_, ?_, ?_, ?_⟩, ?_, ?_, ?_, ?_⟩
     · simp only [c1, c2]; rfl
     · simp only [c2]; exact Nat.zero_le _
     · intro _; exact c1
+    · intro hp'; exact absurd c1 hp'
     · intro f hf'
       simp only [Option.some.injEq] at hf'
       subst hf'
@@ -180,7 +216,7 @@ theorem recv_spec (c : Cfg) (s : State) (h : Inv c s) :
       by_cases hc : s.closed = true <;> simp [deliveredOf, receivedOf, hq, hc], fun h' => h'⟩
   | cons b q =>
     simp only
-    exact ⟨⟨h.size_eq, h.size_le, h.closed_empty⟩, by simp, by simp [flushMsgs, acceptedOf],
+    exact ⟨⟨h.size_eq, h.size_le, h.closed_empty, h.armed⟩, by simp, by simp [flushMsgs, acceptedOf],
       by simp [receivedOf, deliveredOf, hq], fun h' => h'⟩
 
 theorem step_spec (c : Cfg) (s : State) (op : Op) (h : Inv c s) :
@@ -302,6 +338,27 @@ theorem delivered_in_flush_order (c : Cfg) (ops : List Op) :
       = ((flushes (run c init ops).2).filter (·.delivered)).map (·.bytes) := by
   have := fifo_from c init ops (inv_init c)
   simpa [init] using this
+
+/-- **C32 (emission)** in every reachable state, whenever messages are pending (and hence the
+buffer is not closed) the flush timer is armed.  With the trusted assumption on avalanchego's
+timer (an armed timer eventually runs the callback, which flushes), every accepted message is
+eventually handed to the queue — it cannot be stranded waiting for another `Send`/`Close`. -/
+theorem pending_nonempty_implies_timer_armed (c : Cfg) (ops : List Op)
+    (h : (run c init ops).1.pending ≠ []) :
+    (run c init ops).1.timerArmed = true ∧ (run c init ops).1.closed = false := by
+  have hi := inv_run c init ops (inv_init c)
+  refine ⟨hi.armed h, ?_⟩
+  cases hc : (run c init ops).1.closed with
+  | false => rfl
+  | true => exact absurd (hi.closed_empty hc) h
+
+/-- an armed timer that fires on pending messages flushes all of them -/
+theorem fire_flushes_pending (c : Cfg) (s : State) (ha : s.timerArmed = true)
+    (hc : s.closed = false) (hp : s.pending ≠ []) :
+    (fire c s).1.pending = [] ∧ ∃ f, (fire c s).2.flush = some f ∧ f.msgs = s.pending := by
+  have hl : ¬ s.pending.length = 0 := fun e => hp (List.eq_nil_of_length_eq_zero e)
+  unfold fire clearPending
+  by_cases hq : s.queue.length < c.cap <;> simp [ha, hc, hl, hq]
 
 /-- nothing stays pending after `Close` -/
 theorem closed_nothing_pending (c : Cfg) (ops : List Op)
